@@ -143,8 +143,9 @@ impl Hist for C09 {
     type Op = Ev;
 
     fn alphabet(&self, prefix: &[Ev]) -> Vec<Ev> {
-        if matches!(prefix.last(), Some(Ev::Finish | Ev::Abandon)) {
-            return vec![];
+        // after the bar is finished only the resets are of interest (the estimate is pos / elapsed then)
+        if prefix.iter().any(|e| matches!(e, Ev::Finish | Ev::Abandon)) {
+            return if matches!(prefix.last(), Some(Ev::Finish | Ev::Abandon)) && self.steady.is_none() { vec![Ev::ResetElapsed, Ev::ResetEta] } else { vec![] };
         }
         match self.steady {
             Some(r) => GAPS.iter().filter(|&&g| (r as u128 * g as u128) % S as u128 == 0 && r as u128 * g as u128 / S as u128 >= 1).map(|&g| Ev::Inc(g, (r as u128 * g as u128 / S as u128) as u64)).collect(),
@@ -230,7 +231,7 @@ impl Hist for C09 {
         if let Some(d) = moved {
             return bad("L5x: set_position to the current position changes the estimate (taken for a seek)", d);
         }
-        let finished = matches!(hist.last(), Some(Ev::Finish | Ev::Abandon));
+        let finished = hist.iter().any(|e| matches!(e, Ev::Finish | Ev::Abandon));
         // segments since the last reset-like event
         let k = hist.iter().rposition(|e| matches!(e, Ev::ResetEta | Ev::Reset | Ev::ResetElapsed | Ev::Rewind | Ev::RewindDec | Ev::ResetEtaSoon | Ev::RewindSoon));
         let after: &[Ev] = match k {
